@@ -19,6 +19,11 @@ def make_ops():
         "a": lambda: ops.Custom("opA", tys.FunctionType(two, two), "descr", "verif.ext", []),
         "b": lambda: ops.DFG(two, two),
         "const": None,
+        "call": lambda: ops.Call(tys.PolyFuncType([tys.ListParam(tys.TypeTypeParam(tys.TypeBound.Any))],
+                                                  tys.FunctionType.endo([tys.RowVariable(0, tys.TypeBound.Any)])),
+                                 tys.FunctionType.endo(two), [tys.SequenceArg([tys.Bool.type_arg(), tys.Bool.type_arg()])]),
+        "loadf": lambda: ops.LoadFunc(tys.PolyFuncType([], tys.FunctionType(two, []))),
+        "loadc": lambda: ops.LoadConst(tys.Bool),
     }
 
 
@@ -154,7 +159,7 @@ class StoreAdapter:
                 if (n in h) is not True:
                     problems.append(f"live node {mid} not `in` hugr")
                 want_op = self.optok[i][mid]
-                op_ok = (type(d.op).__name__ == {"root": "Module", "a": "Custom", "b": "DFG", "const": "Const"}[want_op])
+                op_ok = (type(d.op).__name__ == {"root": "Module", "a": "Custom", "b": "DFG", "const": "Const", "call": "Call", "loadf": "LoadFunc", "loadc": "LoadConst"}[want_op])
                 meta = d.metadata
                 mt = next((k for k, v in META.items() if (v or {}) == meta), f"?{meta}")
                 if meta != n.metadata and mid != 0:
